@@ -195,7 +195,7 @@ PROPS = {
             'PLAIN does not check that init.mechanism == PLAIN and ignores fields after the third NUL (observed, not part of the property)']),
     'C06': dict(
         probes=[COMPOSITE_VARIANTS],
-        units=['FRAMEENC', 'FRAMEDEC', 'CONNENG', 'TRANSPORT', 'HDRCODEC', 'SASLNEG', 'HEADERS', 'READERS', 'BUILDER', 'WIRELAYOUT', 'SERHDR'], kani=[], level='proof', title='Frames on the wire',
+        units=['FRAMEENC', 'FRAMEDEC', 'CONNENG', 'TRANSPORT', 'HDRCODEC', 'SASLNEG', 'HEADERS', 'READERS', 'BUILDER', 'WIRELAYOUT', 'SERHDR', 'ENUMCODES'], kani=[], level='proof', title='Frames on the wire',
         lemmas={'HDRCODEC': ['lemma_header_round_trip'], 'FRAMEENC': ['lemma_expected_properties', 'lemma_cut_points', 'lemma_mids_payload', 'lemma_mids_sizes', 'lemma_flatten_append', 'lemma_payloads_append']},
         assumptions=[
             'precondition fits(): the transfer performative alone (in each of its three forms) is smaller than the frame body; a larger one is outside the contract (usize underflow / no progress)',
@@ -204,7 +204,7 @@ PROPS = {
             'a NON-transfer performative whose encoding exceeds the frame is refused with FramingError since fix 542518b ([C06.transport.non-transfer-whole]); nothing establishes that the engines handle that error gracefully (the connection engine treats it as a transport error)',
             'decoding under arbitrary read fragmentation is tokio_util LengthDelimitedCodec + FramedRead (third party), not verified']),
     'C01': dict(
-        units=['FRAMEENC', 'SESSION', 'SENDSPLIT', 'LINK', 'REASM', 'SESSENG', 'CONNENG', 'RESUME', 'BYTEREADER', 'WIRING', 'ACCLINK', 'LINKAPI', 'READERS', 'ACCDELEG', 'TXNDELEG', 'SENDINNER', 'SESSWIRING', 'LINKFLOW', 'CONNWIRING', 'WIRELAYOUT', 'SERHDR', 'RESUMESPLIT'],
+        units=['FRAMEENC', 'SESSION', 'SENDSPLIT', 'LINK', 'REASM', 'SESSENG', 'CONNENG', 'RESUME', 'BYTEREADER', 'WIRING', 'ACCLINK', 'LINKAPI', 'READERS', 'ACCDELEG', 'TXNDELEG', 'SENDINNER', 'SESSWIRING', 'LINKFLOW', 'CONNWIRING', 'WIRELAYOUT', 'SERHDR', 'RESUMESPLIT', 'ENUMCODES'],
         lemmas={'SENDSPLIT': ['lemma_link_expected', 'lemma_link_mids'], 'FRAMEENC': ['lemma_expected_properties', 'lemma_mids_payload']}, kani=[], level='proof', title='End-to-end delivery (sequential stages only)',
         assumptions=[ASYNC, ENGINE,
             'only the sequential stages are under contract: session hold-back/stamping (SESSION) and frame splitting (FRAMEENC); link-level split, reassembly and the codec round trip are separate units where built',
@@ -233,7 +233,7 @@ PROPS = {
             'header-before-open (transport protocol-header exchange), a peer close always being answered, handle results, EOF handling and flushing of queued frames are liveness/glue and are NOT decided',
             'ConnectionEngine::{on_incoming,on_outgoing_session_frames,on_heartbeat,forward_to_session} are under contract (unit CONNENG) against a stand-in connection endpoint carrying the CONN contracts; close_connection / wait_for_remote_close / on_control / on_error / event_loop (select!) are not']),
     'C17': dict(
-        units=['CONN', 'CONNENG', 'FRAMEDEC', 'BUILDER', 'TRANSPORT', 'TIMERS', 'LCONNDELEG', 'WIRELAYOUT'], kani=[], level='proof', title='Negotiated limits (channel-max; idle time-out bookkeeping)',
+        units=['CONN', 'CONNENG', 'FRAMEDEC', 'BUILDER', 'TRANSPORT', 'TIMERS', 'LCONNDELEG', 'WIRELAYOUT', 'ENUMCODES'], kani=[], level='proof', title='Negotiated limits (channel-max; idle time-out bookkeeping)',
         assumptions=[
             'DECIDED: channel-max; the VALUES the timers are armed with (heartbeat period from the peer\'s idle-time-out, 0/unset => none; local deadline = configured idle-time-out, advertised value = half of it); one empty frame per heartbeat tick; none after the local Close. the local idle timer is restarted by every incoming item and by nothing the local side sends, and an elapsed timer is reported as IdleTimeoutElapsed (Transport::poll_next / start_send, unit TRANSPORT; the timer is a stand-in with a restart counter and an elapsed flag). NOT DECIDED: the timed behaviour itself (tokio Interval/Sleep): no clock in either verifier',
             'slab::Slab modelled as a partial map whose vacant key is unoccupied']),
